@@ -42,6 +42,8 @@ LEAVES = [
     ("lit", [True]),
     ("lit", ["a", "b"]),
     ("lit", [1, "x", False]),
+    ("lit", [1, True]),
+    ("lit", [False, 0, "z"]),
 ]
 LEAVES_SMALL = [("int",), ("str",), ("cls", "Cls"), ("cls", "Other"), ("enum", "Color"), ("lit", ["a", 2])]
 
